@@ -11,6 +11,7 @@ mod lz;
 mod container;
 mod queue;
 mod bpq;
+mod segbuf;
 mod collection;
 mod reader;
 mod range;
@@ -42,6 +43,7 @@ fn main() {
         container::dispatch,
         queue::dispatch,
         bpq::dispatch,
+        segbuf::dispatch,
         collection::dispatch,
         reader::dispatch,
         range::dispatch,
